@@ -120,7 +120,7 @@ class HTTP(BaseComponent):
                     data = None
                 self.fire(stream(res, data))
         else:
-            if res.body:
+            if res.body and hasattr(res.body, 'close'):
                 res.body.close()
             if res.chunked:
                 self.fire(write(sock, b'0\r\n\r\n'))
